@@ -116,7 +116,15 @@ func (c *ExchangeContent) inheritPropertiesFromUserType(
 			return errors.New(jerr.RuntimeFailure)
 		}
 
-		p := c.ObjectProperty(*(cc.Key))
+		// A key which refers to a user type (@cat: 1) and the literal key "@cat"
+		// are different properties, as they are for the schema library.
+		var p *ExchangeContent
+		for _, v := range c.Children {
+			if *(v.Key) == *(cc.Key) && v.IsKeyUserTypeRef == cc.IsKeyUserTypeRef {
+				p = v
+				break
+			}
+		}
 		if p != nil && p.InheritedFrom == "" {
 			// Don't allow to override original properties.
 			return fmt.Errorf(jerr.NotAllowedToOverrideTheProperty,
